@@ -8,6 +8,10 @@ pub mod c03;
 pub mod c04;
 pub mod c09;
 pub mod c15;
+pub mod c16;
+pub mod c17;
+pub mod c19;
+pub mod c20;
 pub mod common;
 pub mod profiles;
 
